@@ -83,7 +83,7 @@ def _prune_cache(keep):
     try:
         ents = [e for e in os.listdir(CACHE) if os.path.isdir(os.path.join(CACHE, e)) and e != keep]
         ents.sort(key=lambda e: os.path.getmtime(os.path.join(CACHE, e)))
-        for e in ents[:-6]:
+        for e in ents[:-60]:      # generous: several trees may be analysed concurrently (seeded-change matrices, negative controls)
             shutil.rmtree(os.path.join(CACHE, e), ignore_errors=True)
     except OSError:
         pass
